@@ -411,6 +411,9 @@ func run(c Case) (pbt.Outcome, error) {
 			// registration Prometheus rejects (same name, other type or other label names): it must
 			// reach the error callback
 			expectReject := !(c.TimerHist && (op.What == "timer-then-histogram" || op.What == "histogram-then-timer"))
+			if c.ViaConfig == 3 && expectReject && p == nil {
+				errs.Addf("op %d (%s): built from a Configuration with the default onError, a rejected registration must panic with the error (that is the configured callback); nothing happened", oi, op.What)
+			}
 			if observable && expectReject && len(cbErrs) == before {
 				errs.Addf("op %d (%s, timerHist=%v): the second registration is one Prometheus rejects, but the error callback was not called", oi, op.What, c.TimerHist)
 			}
